@@ -159,7 +159,7 @@ func BuildDisruption(rng *rand.Rand, cfg DCfg) *DWorld {
 		_ = e.API.Raw.List(context.Background(), nodes)
 		for _, n := range nodes.Items {
 			if rng.Float64() < cfg.PNotReady {
-				e.KubeletNotReady(n.Name)
+				e.KubeletSetReady(n.Name, []string{"False", "False", "Unknown", "absent"}[rng.Intn(4)])
 			}
 		}
 	}
